@@ -36,7 +36,7 @@ def run_one(pid, m):
             with open(path, 'w') as fh:
                 fh.write(src.replace(e['old'], e['new']))
         env = dict(os.environ, VERIF_REPO=dst, PYVC_EVIDENCE_DIR=os.path.join(tmp, 'evidence'),
-                   PYVC_OUT_DIR=os.path.join(tmp, 'out'))
+                   PYVC_OUT_DIR=os.path.join(tmp, 'out'), PYVC_JOBS=os.environ.get('MUTANT_PYVC_JOBS', '4'))
         r = subprocess.run([os.path.join(VERIF, 'check'), pid], capture_output=True, text=True, env=env,
                            timeout=3600)
         lines = [l for l in r.stdout.split('\n') if l.startswith(('VIOLATION', 'UNDECIDED', 'CHECKER-ERROR', 'KNOWN'))]
